@@ -52,6 +52,15 @@ HasAbs(layout) == \E i \in 1..Len(layout): layout[i].absorbing # <<>>
 OnlySingleNoOut(layout) == {layout[i].from[1]: i \in {j \in 1..Len(layout): Len(layout[j].from) = 1}}
                             \ UNION {SeqSet(layout[i].to): i \in 1..Len(layout)}
 
+\* what the clauses need to know about a layout and that does not depend on the step: computed once per layout by the
+\* models (a constant-level table), not once per transition
+LayoutConsts(layout) ==
+  LET L == 1..Len(layout) IN
+  [keys |-> LayoutKeys(layout), hasAbs |-> HasAbs(layout), osno |-> OnlySingleNoOut(layout),
+   \* index of a mapping record (the first, if it is listed twice) and, per index, the output keys no other mapping outputs
+   idx |-> [m \in {layout[j]: j \in L} |-> CHOOSE j \in L: layout[j] = m /\ \A j2 \in L: layout[j2] = m => j <= j2],
+   own |-> [i \in L |-> {x \in SeqSet(layout[i].to): ~\E j \in L: j # i /\ InSeq(layout[j].to, x)}]]
+
 InitMon == [abs |-> {}, reabs |-> {}, refire |-> <<>>, norep |-> FALSE, rel |-> {}, again |-> {}]
 
 (* ---- derived observations of one transition ---- *)
@@ -71,7 +80,7 @@ InLayout(layout, m) == LET idx == {i \in 1..Len(layout): layout[i].from = m.from
 Tag(c, t) == IF c THEN {t} ELSE {}
 
 (* ---- the clauses ---- *)
-Check(props, layout, keys, pre, physPre, outPre, mon, e, post, ev, rep) ==
+CheckC(props, layout, lc, keys, pre, physPre, outPre, mon, e, post, ev, rep) ==
   LET physPost == PhysPost(physPre, e)
       acted == physPost # physPre
       ignored == Ignored(pre, e)
@@ -82,8 +91,8 @@ Check(props, layout, keys, pre, physPre, outPre, mon, e, post, ev, rep) ==
       \* fs[1] is the mapper's own copy of the mapping; what C07/C09 are about is the mode the LAYOUT declares for it
       fired == InLayout(layout, fs[1])
       firedNorep == hasFired /\ fired.repeat.kind # "Normal"
-      hasAbs == HasAbs(layout)
-      foreign == keys \ LayoutKeys(layout)
+      hasAbs == lc.hasAbs
+      foreign == keys \ lc.keys
       L == 1..Len(layout)
 
       (* C19: no redundant events; bookkeeping = device *)
@@ -97,7 +106,7 @@ Check(props, layout, keys, pre, physPre, outPre, mon, e, post, ev, rep) ==
 
       (* C02 *)
       c02 == Tag(\E k \in outPost: ~(k \in physPost \/ \E i \in L: InSeq(layout[i].to, k) /\ SeqSet(layout[i].from) \subseteq physPost), "C02a")
-             \cup Tag(outPost \cap OnlySingleNoOut(layout) # {}, "C02b")
+             \cup Tag(outPost \cap lc.osno # {}, "C02b")
              \cup Tag(e.t = "R" /\ PressedIn(ev) # {}, "C02c")
              \cup Tag(\E i \in 1..Len(post.active): \E f \in SeqSet(post.active[i].from):
                          f \in outPost /\ ~\E j \in 1..Len(post.active): InSeq(post.active[j].to, f), "C02d")
@@ -156,8 +165,9 @@ Check(props, layout, keys, pre, physPre, outPre, mon, e, post, ev, rep) ==
               ELSE {}
       c05i == IF hasAbs THEN {}
               ELSE UNION {LET m == pre.active[i]
-                              mi == CHOOSE j \in L: layout[j] = m
-                              own == {x \in SeqSet(m.to): ~\E j \in L: j # mi /\ InSeq(layout[j].to, x)}
+                              known == m \in DOMAIN lc.idx          \* (a mapping in effect that the layout does not list: AUX reports it)
+                              mi == IF known THEN lc.idx[m] ELSE 0
+                              own == IF known THEN lc.own[mi] ELSE {}
                           IN IF ~InSeq(post.active, m) \/ m.to = <<>> THEN {}
                              ELSE Tag(IsMod(LastOf(m.to)) /\ \E x \in own: IsMod(x) /\ x \in ReleasedIn(ev), "C05-ineffect-mod")
                                   \cup Tag(m.repeat.kind = "Normal" /\ ~(\E y \in SeqSet(m.to): IsMod(y)) /\ ~firedNorep
@@ -227,6 +237,9 @@ Check(props, layout, keys, pre, physPre, outPre, mon, e, post, ev, rep) ==
             \cup (IF "C08" \in props THEN a08 ELSE {})
             \cup (IF "C09" \in props THEN a09 ELSE {})]
 
+Check(props, layout, keys, pre, physPre, outPre, mon, e, post, ev, rep) ==
+  CheckC(props, layout, LayoutConsts(layout), keys, pre, physPre, outPre, mon, e, post, ev, rep)
+
 (* release_all as an operation of its own: C19 for the batch, nothing left held (C06/C01) *)
 CheckReleaseAll(props, outPre, post, ev) ==
   LET fo == FoldEv([out |-> outPre, bad |-> FALSE], ev) IN
@@ -253,7 +266,7 @@ Aux(layout, st) ==
   \cup Tag(~(SeqSet(st.absorbed) \subseteq UNION {SeqSet(layout[i].absorbing): i \in 1..Len(layout)}), "AUX-absorbed-key-not-in-any-absorbing-list")
   \cup Tag(st.abstrig = <<>> /\ st.absorbed # <<>>, "AUX-absorbed-keys-without-trigger")
 
-MonNext(props, layout, pre, physPre, mon, e, post) ==
+MonNextC(props, layout, hasAbsL, pre, physPre, mon, e, post) ==
   LET physPost == PhysPost(physPre, e)
       ignored == Ignored(pre, e)
       fs == FiredSeq(pre, e, post)
@@ -279,7 +292,8 @@ MonNext(props, layout, pre, physPre, mon, e, post) ==
               ELSE IF e.t = "P" /\ ~ignored THEN mon.rel \ {e.k} ELSE mon.rel
       again2 == IF e.t = "R" THEN mon.again \ {e.k}
                 ELSE ((mon.again \cup (IF ~ignored /\ e.k \in mon.rel THEN {e.k} ELSE {})) \ nowAbs) \cap physPost
-  IN IF "C08" \in props /\ HasAbs(layout)
+  IN IF "C08" \in props /\ hasAbsL
      THEN [abs |-> abs3, reabs |-> reabs2 \cap {p[1]: p \in abs3}, refire |-> refire2, norep |-> norep2, rel |-> rel2 \ nowAbs, again |-> again2]
      ELSE [abs |-> {}, reabs |-> {}, refire |-> <<>>, norep |-> norep2, rel |-> {}, again |-> {}]
+MonNext(props, layout, pre, physPre, mon, e, post) == MonNextC(props, layout, HasAbs(layout), pre, physPre, mon, e, post)
 =============================================================================
